@@ -176,5 +176,5 @@ pub fn run(ctx: &Ctx) {
     ctx.enumerated("powers-of-ten", "pow", 5001, true, "EXHAUSTIVE: k = 0..5000: digits() of 10^k, 10^k-1, 10^k+1 (both signs); one() extended to scale k by with_scale / with_prec / to_owned_with_scale / with_scale_round", |i| Some(PowCase { k: i as u32 }), check_pow);
     ctx.enumerated("small-exhaustive", "acc", small_total(), true, "EXHAUSTIVE: every unscaled value of up to 5 digits (both signs, zero) x scales -6..6 x extension {0,3}", small_case, check_acc);
     let max_len = t.pick(2000usize, 5000);
-    ctx.generated("random", "acc", t.pick(60_000, 2_000_000), "up to max digits, 0..max trailing zeros, extensions 0..max, scales to +-10^4", move || acc_strategy(max_len), check_acc);
+    ctx.generated("random", "acc", t.pick(300_000, 2_000_000), "up to max digits, 0..max trailing zeros, extensions 0..max, scales to +-10^4", move || acc_strategy(max_len), check_acc);
 }
